@@ -39,6 +39,20 @@ type Log = Arc<Mutex<Vec<String>>>;
 struct Serial(Log);
 #[zbus::interface(name = "a.b.Serial", spawn = false)]
 impl Serial {
+    #[zbus(property)]
+    async fn level(&self) -> u32 {
+        0
+    }
+    /// A `&mut self` setter that suspends: while it is in flight (it is dispatched by the
+    /// Properties interface, from a spawned task) the interface's write lock is taken.
+    #[zbus(property)]
+    async fn set_level(&mut self, yields: u32) {
+        self.0.lock().unwrap().push("set:start".into());
+        for _ in 0..yields {
+            YieldNow(false).await;
+        }
+        self.0.lock().unwrap().push("set:end".into());
+    }
     async fn work(&self, id: u32, yields: u32) -> u32 {
         self.0.lock().unwrap().push(format!("start {id}"));
         for _ in 0..yields {
@@ -87,6 +101,9 @@ struct Params {
     muts: [bool; 3],
     /// deliver the burst in one read (true) or as three environment events (false)
     burst: bool,
+    /// precede the calls with a `Properties.Set` whose `&mut self` setter yields this many times
+    /// (0 = no Set): something else then holds / waits for the interface's write lock
+    set_yields: u32,
 }
 
 fn scenario(p: Params) -> ExecResult {
@@ -124,6 +141,15 @@ fn scenario(p: Params) -> ExecResult {
         .collect();
     let serials: Vec<_> = calls.iter().map(|c| c.primary_header().serial_num()).collect();
     let mut next = 0;
+    if p.set_yields > 0 && !p.spawn {
+        let set = zbus::Message::method_call("/s", "Set")
+            .unwrap()
+            .interface("org.freedesktop.DBus.Properties")
+            .unwrap()
+            .build(&("a.b.Serial", "Level", zbus::zvariant::Value::from(p.set_yields)))
+            .unwrap();
+        link.b2a.push(set.data().bytes(), vec![]);
+    }
     if p.burst {
         let all: Vec<u8> = calls.iter().flat_map(|c| c.data().bytes().to_vec()).collect();
         link.b2a.push(&all, vec![]);
@@ -176,7 +202,9 @@ fn scenario(p: Params) -> ExecResult {
         if !p.spawn {
             // calls arrive in order 0,1,2: the handler intervals must be disjoint and in that order
             let want: Vec<String> = (0..3).flat_map(|i| [format!("start {i}"), format!("end {i}")]).collect();
-            if events != want {
+            // the property setter's own marks are not method calls of the interface
+            let method_events: Vec<String> = events.iter().filter(|e| !e.starts_with("set:")).cloned().collect();
+            if method_events != want {
                 res.violations.push(
                     v("one-after-another-in-arrival-order", format!("handlers of a spawn=false interface ran as {events:?}, expected {want:?}"))
                         .feat("spawn", false),
@@ -201,6 +229,7 @@ pub fn main(args: &Args) -> i32 {
                 yields: [0, 1, 2].map(|i| y.get(i).and_then(|v| v.as_u64()).unwrap_or(0) as u32),
                 muts: [0, 1, 2].map(|i| m.get(i).and_then(|v| v.as_bool()).unwrap_or(false)),
                 burst: j["burst"].as_bool().unwrap_or(true),
+                set_yields: j["set_yields"].as_u64().unwrap_or(0) as u32,
             };
             Some(Box::new(move || scenario(p)))
         });
@@ -216,8 +245,14 @@ pub fn main(args: &Args) -> i32 {
                     if !quick || (yn != "y012" || !burst) {
                         scenarios.push((
                             format!("{}-{yn}-{mn}-{}", if spawn { "spawn" } else { "nospawn" }, if burst { "burst" } else { "trickle" }),
-                            Params { spawn, yields, muts, burst },
+                            Params { spawn, yields, muts, burst, set_yields: 0 },
                         ));
+                        if !spawn && mn == "ref" {
+                            scenarios.push((
+                                format!("nospawn-{yn}-{mn}-{}-setter-in-flight", if burst { "burst" } else { "trickle" }),
+                                Params { spawn, yields, muts, burst, set_yields: 2 },
+                            ));
+                        }
                     }
                 }
             }
@@ -233,7 +268,7 @@ pub fn main(args: &Args) -> i32 {
             &report,
             &totals,
             &name,
-            json!({"spawn": p.spawn, "yields": p.yields, "muts": p.muts, "burst": p.burst}),
+            json!({"spawn": p.spawn, "yields": p.yields, "muts": p.muts, "burst": p.burst, "set_yields": p.set_yields}),
             &plan,
             move || scenario(p),
         );
